@@ -102,6 +102,8 @@ const USER_POLICIES: &[&str] = &[
     "DPT::FIN || DPT::MKG", "(SEC::LOW && DPT::HR) || (SEC::TOP && DPT::MKG)", "SEC::TOP || DPT::RD", "SEC::LOW && (DPT::FIN || (DPT::HR))",
     // '*' as an operand: neutral in a conjunction, absorbing in a disjunction
     "SEC::LOW && *", "DPT::FIN || *", "(*) && DPT::HR",
+    // AND binds tighter than OR, without parentheses
+    "SEC::LOW && DPT::HR || SEC::TOP && DPT::MKG", "DPT::FIN && SEC::LOW || DPT::HR && SEC::LOW",
 ];
 const ENC_POLICIES: &[&str] = &[
     "*", "SEC::LOW", "SEC::TOP", "DPT::FIN", "DPT::HR", "DPT::MKG", "SEC::LOW && DPT::FIN", "SEC::TOP && DPT::FIN", "SEC::TOP && DPT::HR",
@@ -109,6 +111,7 @@ const ENC_POLICIES: &[&str] = &[
     // a conjunction that is a sub-conjunction of another one
     "DPT::FIN || (DPT::FIN && SEC::TOP)", "SEC::LOW || (SEC::LOW && DPT::HR)",
     "SEC::TOP && *", "DPT::HR || *", "(*) && SEC::TOP && DPT::FIN", "(SEC::TOP && DPT::HR) || (*)",
+    "SEC::LOW && DPT::MKG || SEC::TOP && DPT::FIN",
 ];
 
 // @obl props=C01,C02,C09,C11 tier=quick fn=api::Covercrypt::decaps shape="test structure (SEC hierarchy with a hybridized attribute, DPT anarchy), 15 user policies x 19 encryption policies (with '*' as an operand), expected outcome from an independent reference parser and cover relation, real cryptography"
@@ -482,6 +485,40 @@ fn history__targeted_long_sequences() {
     done();
 }
 
+// @obl props=C05,C09,C10 tier=quick fn=core::primitives::prune shape="prune while the structure is ahead of the master key (attribute added, no update yet): every held right of the policy is pruned, or the call fails and changes nothing"
+#[test]
+fn prune__with_pending_structure_edit() {
+    let mut n = 0u64;
+    for attempt in 0..12 {
+        let cc = Covercrypt::default();
+        let (mut msk, _mpk) = cc_keygen(&cc, false).unwrap();
+        cc.rekey(&mut msk, &ap("SEC::TOP")).unwrap();
+        cc.rekey(&mut msk, &ap("DPT::FIN")).unwrap();
+        msk.access_structure.add_attribute(QualifiedAttribute::new("DPT", "NEW"), EncryptionHint::Classic, None).unwrap();
+        let targets = msk.access_structure.ap_to_usk_rights(&ap("SEC::TOP")).unwrap();
+        let before = msk.serialize().unwrap().to_vec();
+        let chains_before: BTreeMap<Vec<u8>, usize> = msk.secrets.iter().map(|(r, c)| (r.0.clone(), c.len())).collect();
+        match cc.prune_master_secret_key(&mut msk, &ap("SEC::TOP")) {
+            Ok(_) => {
+                for (r, c) in msk.secrets.iter() {
+                    if targets.contains(r) {
+                        vchk!(c.len() == 1, "C05: after pruning 'SEC::TOP' (attempt {attempt}) the right {r:?} still holds {} secrets: every right of the policy held by the master key keeps exactly its newest secret", c.len());
+                    } else {
+                        vchk!(Some(&c.len()) == chains_before.get(&r.0), "C05: pruning 'SEC::TOP' changed the chain of the unrelated right {r:?}");
+                    }
+                    n += 1;
+                }
+            }
+            Err(e) => {
+                vchk!(msk.serialize().unwrap().to_vec() == before, "C10: a failed prune ({e}) modified the master key (partially pruned)");
+                vchk!(false, "C09: pruning while an attribute is pending is not a documented error ({e})");
+            }
+        }
+    }
+    println!("VERIF-COUNT prune__with_pending_structure_edit {n}");
+    done();
+}
+
 // ---------------------------------------------------------------------------
 // C07: non-malleability of encapsulations (bounded: every byte, every component rearrangement)
 // ---------------------------------------------------------------------------
@@ -584,7 +621,7 @@ fn malleability__structural_rearrangements_are_rejected() {
 // C12: PKE and header layers
 // ---------------------------------------------------------------------------
 
-// @obl props=C12,C13,C14,C07 tier=quick fn=api::Covercrypt::encrypt shape="plaintext lengths 0..=40 and 4096; authorized and unauthorized key; every truncation; every single-byte change of the DEM ciphertext"
+// @obl props=C01,C12,C13,C14,C07 tier=quick fn=api::Covercrypt::encrypt shape="plaintext lengths 0..=40 and 4096; authorized and unauthorized key; every truncation; every single-byte change of the DEM ciphertext"
 #[test]
 fn pke__roundtrip_truncation_and_tampering() {
     let cc = Covercrypt::default();
@@ -622,6 +659,19 @@ fn pke__roundtrip_truncation_and_tampering() {
                 n += 1;
             }
         }
+        n += 1;
+    }
+    // hybridized encapsulations with several targets (component order matters for the tag): repeated, every one must open
+    for rep in 0..12 {
+        let pol = "SEC::TOP && (DPT::FIN || DPT::MKG || DPT::HR)";
+        let ptx = vec![rep as u8; 20];
+        let ctx = PkeAc::<{ Aes256Gcm::KEY_LENGTH }, Aes256Gcm>::encrypt(&cc, &mpk, &ap(pol), &ptx).unwrap();
+        let got = PkeAc::<{ Aes256Gcm::KEY_LENGTH }, Aes256Gcm>::decrypt(&cc, &ok, &ctx);
+        vchk!(matches!(&got, Ok(Some(v)) if &v[..] == &ptx[..]), "C12/C01: an authorized key must decrypt the ciphertext for '{pol}' (hybridized, 3 targets) to the exact plaintext (attempt {rep})");
+        let (secret, hdr) = EncryptedHeader::generate(&cc, &mpk, &ap(pol), Some(b"m"), Some(b"aad")).unwrap();
+        let clear = hdr.decrypt(&cc, &ok, Some(b"aad"));
+        vchk!(matches!(&clear, Ok(Some(c)) if c.secret == secret && c.metadata.as_deref() == Some(&b"m"[..])), "C12/C01: an authorized key must open the header for '{pol}' (hybridized, 3 targets) to the same secret and metadata (attempt {rep})");
+        vchk!(hdr.decrypt(&cc, &ok, Some(b"other")).is_err(), "C12: authentication data with different content must be rejected (hybridized, 3 targets)");
         n += 1;
     }
     println!("VERIF-COUNT pke__roundtrip_truncation_and_tampering {n}");
@@ -832,7 +882,9 @@ fn no_panic<R>(what: &str, f: impl FnOnce() -> R) -> R {
     }
 }
 /// deserialize as every object type, then use whatever parses
+static CURRENT_INPUT: std::sync::Mutex<String> = std::sync::Mutex::new(String::new());
 fn use_bytes(cc: &Covercrypt, keys: &[UserSecretKey], b: &[u8], what: &str) -> u64 {
+    if let Ok(mut c) = CURRENT_INPUT.lock() { c.clear(); c.push_str(what); }
     let mut n = 0;
     if let Ok(enc) = no_panic(&format!("deserializing XEnc from {what}"), || XEnc::deserialize(b)) {
         no_panic(&format!("using accessors of an XEnc parsed from {what}"), || (enc.tracing_level(), enc.count()));
@@ -859,6 +911,20 @@ fn use_bytes(cc: &Covercrypt, keys: &[UserSecretKey], b: &[u8], what: &str) -> u
 // @obl props=C14 tier=quick fn=core::serialization::read shape="valid serializations of 6 object kinds: every truncation, every single-byte corruption (3 values), every byte replaced by LEB128 boundary counts up to 2^64-1; each input parsed as every object kind; parsed mutants used in decapsulation and accessors"
 #[test]
 fn robustness__truncation_corruption_and_huge_counts() {
+    // the sweep runs in a worker; a deserialization that does not terminate is reported, not waited for
+    let (tx, rx) = std::sync::mpsc::channel();
+    std::thread::spawn(move || { let r = std::panic::catch_unwind(robustness_sweep); let _ = tx.send(r.map_err(|e| e.downcast_ref::<String>().cloned().or_else(|| e.downcast_ref::<&str>().map(|s| s.to_string())).unwrap_or_default())); });
+    let budget = std::time::Duration::from_secs(std::env::var("VERIF_ROBUSTNESS_BUDGET_S").ok().and_then(|v| v.parse().ok()).unwrap_or(420));
+    match rx.recv_timeout(budget) {
+        Ok(Ok(())) => {}
+        Ok(Err(m)) => panic!("{m}"),
+        Err(_) => {
+            let cur = CURRENT_INPUT.lock().map(|c| c.clone()).unwrap_or_default();
+            panic!("C14: the robustness sweep (normally a few seconds) did not terminate within {} s; it was processing: {cur} (a deserializer or accessor loops, or works in time proportional to an announced count instead of the input)", budget.as_secs())
+        }
+    }
+}
+fn robustness_sweep() {
     let (cc, msk, mpk, keys, encs) = rich_world();
     let (_s, hdr) = EncryptedHeader::generate(&cc, &mpk, &ap("DPT::HR"), Some(b"meta"), None).unwrap();
     // small objects so that the sweep stays fast: a classic user key and encapsulation, the structure, a header
@@ -997,13 +1063,23 @@ fn freshness__repeated_calls_never_repeat() {
         let (_m, mpk_t) = cc_keygen(&shared, false).unwrap();
         let mpk_t = Arc::new(mpk_t);
         let seen = Arc::new(Mutex::new((BTreeSet::new(), BTreeSet::new(), 0usize)));
+        let nonces = Arc::new(Mutex::new((BTreeSet::<Vec<u8>>::new(), 0usize)));
         let barrier = Arc::new(Barrier::new(8));
         let hs: Vec<_> = (0..8).map(|_| {
-            let (c, m, s, b) = (shared.clone(), mpk_t.clone(), seen.clone(), barrier.clone());
+            let (c, m, s, b, nn) = (shared.clone(), mpk_t.clone(), seen.clone(), barrier.clone(), nonces.clone());
             std::thread::spawn(move || {
                 for _ in 0..40 {
                     b.wait();
                     let (ss, e) = c.encaps(&m, &AccessPolicy::parse("SEC::LOW && DPT::FIN").unwrap()).unwrap();
+                    // headers with metadata and PKE ciphertexts draw their AEAD nonce from the same shared generator
+                    let (_s, h) = EncryptedHeader::generate(&c, &m, &AccessPolicy::parse("DPT::FIN").unwrap(), Some(b"same metadata"), None).unwrap();
+                    let ctx = PkeAc::<{ Aes256Gcm::KEY_LENGTH }, Aes256Gcm>::encrypt(&*c, &m, &AccessPolicy::parse("DPT::FIN").unwrap(), b"same plaintext").unwrap();
+                    {
+                        let mut g = nn.lock().unwrap();
+                        g.0.insert(h.encrypted_metadata.as_ref().unwrap()[..12].to_vec());
+                        g.0.insert(ctx.1[..12].to_vec());
+                        g.1 += 2;
+                    }
                     let mut g = s.lock().unwrap();
                     g.0.insert(ss.to_vec());
                     g.1.insert(e.tag);
@@ -1015,6 +1091,8 @@ fn freshness__repeated_calls_never_repeat() {
         let g = seen.lock().unwrap();
         vchk!(g.0.len() == g.2 && g.1.len() == g.2, "C16: {} concurrent encapsulations on a shared instance produced only {} distinct secrets / {} distinct tags", g.2, g.0.len(), g.1.len());
         n += g.2 as u64;
+        let g = nonces.lock().unwrap();
+        vchk!(g.0.len() == g.1, "C16: {} header / PKE encryptions made concurrently on a shared instance used only {} distinct AEAD nonces", g.1, g.0.len());
     }
     let mut ids = BTreeSet::new();
     for _ in 0..reps {
